@@ -1,9 +1,522 @@
 import BronVerif.Drive.Common
-/-! Driver handlers for C02. -/
+import BronVerif.Model.LinAlg
+import BronVerif.Model.Access
+import BronVerif.Model.Sharing
+/-! Driver handlers for C02 (access structures, span programmes, linear secret sharing). -/
 namespace BronVerif.Drive.C02
-open BronVerif BronVerif.Drive
+open BronVerif BronVerif.Drive BronVerif.LinAlg BronVerif.Access BronVerif.Sharing
 
-def handle (op : String) (_args : List String) (_rhs : String) : Verdict :=
-  .unsupported ("C02 op " ++ op)
+instance instNatCastFpC02 {p : Nat} [NeZero p] : NatCast (Fp p) := ⟨Fp.ofNat p⟩
+
+/-! ### parsing -/
+
+def parseInt? (s : String) : Option Int :=
+  if s.startsWith "-" then (s.drop 1).toString.toNat?.map (fun n => - (n : Int)) else s.toNat?.map (fun n => (n : Int))
+
+/-- gate tree: `<hexid>` or `[<t>:<node>,<node>,…]` -/
+partial def parseNode (cs : List Char) : Option (Tree × List Char) :=
+  match cs with
+  | '[' :: rest =>
+    let ts := rest.takeWhile (· != ':')
+    let rest := (rest.dropWhile (· != ':')).drop 1
+    match parseInt? (String.ofList ts) with
+    | none => none
+    | some t =>
+      let rec children (cs : List Char) (acc : List Tree) : Option (List Tree × List Char) :=
+        match cs with
+        | ']' :: r => some (acc.reverse, r)
+        | ',' :: r => children r acc
+        | _ => match parseNode cs with
+          | none => none
+          | some (nd, r) => children r (nd :: acc)
+      match children rest [] with
+      | none => none
+      | some (ch, r) => some (.gate t ch, r)
+  | _ =>
+    let ds := cs.takeWhile fun c => c != ',' && c != ']'
+    match hexToNat? (String.ofList ds) with
+    | none => none
+    | some id => some (.leaf id, cs.drop ds.length)
+
+def parsePolicy? (tok : String) : Option Policy :=
+  match tok.splitOn ":" with
+  | "th" :: t :: ids :: [] => do
+    let t ← t.toNat?
+    let ids ← parseNatList? ids
+    return .threshold t ids
+  | "un" :: ids :: [] => do
+    let ids ← parseNatList? ids
+    return .unanimity ids
+  | "cnf" :: rest :: [] =>
+    if rest == "" then some (.cnf []) else do
+    let sets ← (rest.splitOn "|").mapM parseNatList?
+    return .cnf sets
+  | "hi" :: rest :: [] =>
+    if rest == "" then some (.hier []) else do
+    let levels ← (rest.splitOn "|").mapM fun l =>
+      match l.splitOn "/" with
+      | [t, ids] => do
+        let t ← parseInt? t
+        let ids ← parseNatList? ids
+        return (t, ids)
+      | _ => none
+    return .hier levels
+  | "bx" :: _ =>
+    match parseNode (tok.drop 3).toString.toList with
+    | some (nd, []) => some (.tree nd)
+    | _ => none
+  | _ => none
+
+def parseMSP? {p : Nat} [NeZero p] (rs cs ms hs : String) : Option (MSP (Fp p)) := do
+  let r ← rs.toNat?
+  let c ← cs.toNat?
+  let xs ← parseNatList? ms
+  let holders ← parseNatList? hs
+  if xs.length ≠ r * c ∨ holders.length ≠ r ∨ c = 0 then none
+  return { mat := chunk (fpList xs) c, cols := c, holders := holders }
+
+/-- `id=v1,v2;id=…` -/
+def parseIdVals? (s : String) : Option (List (Nat × List Nat)) :=
+  if s == "-" || s == "" then some [] else
+  (s.splitOn ";").mapM fun e =>
+    match e.splitOn "=" with
+    | [id, vs] => do
+      let id ← hexToNat? id
+      let vs ← parseNatList? vs
+      return (id, vs)
+    | _ => none
+
+def hexList (xs : List Nat) : String := joinComma (xs.map natToHex)
+
+def renderMSP {p : Nat} (m : MSP (Fp p)) (sep : String) : String :=
+  sep.intercalate [toString m.mat.length, toString m.cols, joinComma (m.mat.flatten.map Fp.toHex), hexList m.holders]
+
+def renderIdVals {p : Nat} (xs : List (Nat × List (Fp p))) : String :=
+  if xs.isEmpty then "-" else ";".intercalate (xs.map fun (id, vs) => natToHex id ++ "=" ++ fpHexList vs)
+
+def bits (bs : List Bool) : String := if bs.isEmpty then "-" else String.ofList (bs.map fun b => if b then '1' else '0')
+
+def masks (U : List Nat) : List (List Nat) := (List.range (2 ^ U.length)).map (subsetByMask U)
+
+/-- a panic is never an admissible refusal -/
+def mirrorNoPanic (model rhs : String) : Verdict :=
+  if rhs.startsWith "panic" then .bad "panic" ("expected=" ++ model ++ " observed=" ++ rhs) else mirror model rhs
+
+def withField {α} (ps : String) (dflt : α) (f : (q : Nat) → [NeZero q] → α) : α :=
+  match hexToNat? ps with
+  | none => dflt
+  | some p => withPrime p dflt f
+
+def hasRowless {p : Nat} (g : MSP (Fp p)) (S : List Nat) : Bool := S.any fun id => !g.holders.contains id
+
+def holdersOf {p : Nat} (g : MSP (Fp p)) : List Nat := sortedSet g.holders
+
+/-- first index at which two lists of strings differ -/
+def firstDiff (a b : List String) : Option Nat :=
+  ((List.range (max a.length b.length)).filter fun i => a[i]? != b[i]?).head?
+
+/-! ### handlers -/
+
+def hNew (tok rhs : String) : Verdict :=
+  match parsePolicy? tok with
+  | none => .unsupported "policy"
+  | some pol =>
+    let model := match pol.validate with | .ok _ => "ok" | .error e => e
+    mirrorNoPanic model rhs
+
+def hQual (tok rhs : String) : Verdict :=
+  match parsePolicy? tok with
+  | none => .unsupported "policy"
+  | some pol =>
+    let U := pol.shareholders
+    spec "isQualified" (hexList U ++ "/" ++ bits ((masks U).map pol.isQualified)) rhs
+
+def hMsp (ps tok rhs : String) : Verdict :=
+  match parsePolicy? tok with
+  | none => .unsupported "policy"
+  | some pol => withField ps (.unsupported "p") fun q =>
+    let model := match (inducedMSP q pol : Except String (MSP (Fp q))) with
+      | .error e => e
+      | .ok m => "ok:" ++ renderMSP m "/"
+    mirrorNoPanic model rhs
+
+def hAccepts (ps tok rs cs ms hs rhs : String) : Verdict :=
+  match parsePolicy? tok with
+  | none => .unsupported "policy"
+  | some pol => withField ps (.unsupported "p") fun q =>
+    match parseMSP? (p := q) rs cs ms hs with
+    | none => .unsupported "msp"
+    | some g =>
+      let U := pol.shareholders
+      let sets := masks U
+      let qual := sets.map pol.isQualified
+      let goBits := rhs.toList.map (· == '1')
+      if goBits.length ≠ sets.length then .unsupported "rhs length" else
+      -- (1) the property: Accepts(S) ↔ isQualified(S)
+      let mism := (sets.zip (qual.zip goBits)).filter fun (_, qb, gb) => qb != gb
+      if !mism.isEmpty then
+        let key := if mism.all (fun (S, _, _) => hasRowless g S) then "accepts-holder-without-rows" else "accepts-ne-qualified"
+        .bad key ("qualified=" ++ bits qual ++ " accepts=" ++ rhs ++ " first-subset=" ++ hexList ((mism.head?.map (·.1)).getD []))
+      else
+      -- (2) the driver's own span test on the matrix Go reports
+      let own := sets.map g.accepts
+      if own != goBits then .bad "accepts-ne-span" ("solveLeft on the reported matrix: " ++ bits own) else
+      -- (3) privacy: for every unqualified S, e₀ ∉ rowspan(M_S) by an independent rank computation
+      let leak := (sets.zip qual).filter fun (S, qb) => !qb && !(g.rowsOf S).isEmpty && g.targetInSpan S
+      if !leak.isEmpty then .bad "privacy" ("target in span of unqualified set " ++ hexList ((leak.head?.map (·.1)).getD [])) else
+      let lost := (sets.zip qual).filter fun (S, qb) => qb && !g.targetInSpan S
+      if !lost.isEmpty then .bad "msp-rejects-qualified" (hexList ((lost.head?.map (·.1)).getD [])) else
+      -- (4) the model's own construction
+      match (inducedMSP q pol : Except String (MSP (Fp q))) with
+      | .error e => .diff ("model refuses: " ++ e)
+      | .ok m => mirror (bits (sets.map m.accepts)) rhs
+
+def hRecvec (ps rs cs ms hs ss rhs : String) : Verdict :=
+  withField ps (.unsupported "p") fun q =>
+    match parseMSP? (p := q) rs cs ms hs, parseNatList? ss with
+    | some g, some S =>
+      let model := g.reconVector S
+      if rhs == "none" then
+        match model with
+        | some c => .bad "recvec-missed" ("solvable: " ++ fpHexList c)
+        | none => .ok
+      else if rhs.startsWith "ok:" then
+        match (rhs.drop 3).toString.splitOn "/" with
+        | [vs, cos] =>
+          match parseNatList? vs, parseIdVals? cos with
+          | some v, some co =>
+            let c : List (Fp q) := fpList v
+            let sub := g.sub S
+            let prod : List (Fp q) := (List.range g.cols).map fun j => dot c (sub.map fun row => row.getD j 0)
+            if c.length ≠ sub.length ∨ prod ≠ g.target then .bad "recvec-wrong" "c·M_S != e0" else
+            -- coefficients of each holder = entries of c on that holder's rows
+            let rows := g.rowsOf S
+            let want := (sortedSet S).map fun id =>
+              (id, (rows.zip c).filterMap fun (i, ci) => if g.holders[i]? = some id then some ci else none)
+            let got : List (Nat × List (Fp q)) := co.map fun (id, xs) => (id, fpList xs)
+            if renderIdVals want != renderIdVals got then .bad "coefficients" ("expected=" ++ renderIdVals want) else
+            match model with
+            | none => .diff "model: none"
+            | some mc => mirror (fpHexList mc) vs
+          | _, _ => .unsupported "rhs"
+        | _ => .unsupported "rhs"
+      else mirrorNoPanic (match model with | none => "none" | some c => "ok:" ++ fpHexList c) rhs
+    | _, _ => .unsupported "args"
+
+def sharesOf {p : Nat} [NeZero p] (g : MSP (Fp p)) (lam : List (Fp p)) : List (Nat × List (Fp p)) :=
+  (holdersOf g).map fun id => (id, g.shareOf lam id)
+
+def hDeal (ps rs cs ms hs secret rhs : String) : Verdict :=
+  withField ps (.unsupported "p") fun q =>
+    match parseMSP? (p := q) rs cs ms hs, hexToNat? secret with
+    | some g, some s =>
+      if g.cols < 2 then mirrorNoPanic "err:value" rhs else
+      if !rhs.startsWith "ok:" then .bad "deal-refused" ("observed=" ++ rhs) else
+      match (rhs.drop 3).toString.splitOn "/" with
+      | [col, sh] =>
+        match parseNatList? col with
+        | some r =>
+          let r : List (Fp q) := fpList r
+          if r.length ≠ g.cols ∨ r.head? ≠ some (Fp.ofNat q s) then .bad "deal-secret" "random column does not start with the secret" else
+          spec "deal-shares" (renderIdVals (sharesOf g (g.deal r))) sh
+        | none => .unsupported "rhs"
+      | _ => .unsupported "rhs"
+    | _, _ => .unsupported "args"
+
+def hRecon (ps tok rs cs ms hs col rhs : String) : Verdict :=
+  match parsePolicy? tok with
+  | none => .unsupported "policy"
+  | some pol => withField ps (.unsupported "p") fun q =>
+    match parseMSP? (p := q) rs cs ms hs, parseNatList? col with
+    | some g, some r =>
+      let r : List (Fp q) := fpList r
+      let lam := g.deal r
+      let secret := (r.headD 0).toHex
+      let sets := masks pol.shareholders
+      let want := sets.map fun S => if pol.isQualified S then secret else "x"
+      let got := rhs.splitOn ","
+      match firstDiff want got with
+      | some i =>
+        let S := sets.getD i []
+        .bad (if hasRowless g S then "recon-holder-without-rows" else "recon")
+          ("subset=" ++ hexList S ++ " expected=" ++ want.getD i "?" ++ " observed=" ++ got.getD i "?")
+      | none =>
+        let model := sets.map fun S => match g.reconstruct S lam with | some v => v.toHex | none => "x"
+        mirror (",".intercalate model) rhs
+    | _, _ => .unsupported "args"
+
+def hToAdd (ps tok rs cs ms hs col qs rhs : String) : Verdict :=
+  match parsePolicy? tok with
+  | none => .unsupported "policy"
+  | some pol => withField ps (.unsupported "p") fun q =>
+    match parseMSP? (p := q) rs cs ms hs, parseNatList? col, parseNatList? qs with
+    | some g, some r, some Q =>
+      let r : List (Fp q) := fpList r
+      let lam := g.deal r
+      let qualified := pol.isQualified Q
+      if rhs.startsWith "ok:" then
+        match parseIdVals? (rhs.drop 3).toString with
+        | none => .unsupported "rhs"
+        | some vals =>
+          let vs : List (Fp q) := vals.map fun (_, xs) => Fp.ofNat q (xs.headD 0)
+          if !qualified then .bad "additive-unqualified" "conversion over an unqualified quorum succeeded" else
+          if vals.map (·.1) != sortedSet Q then .bad "additive-ids" "wrong holders" else
+          if vsum vs ≠ r.headD 0 then .bad "additive-sum" ("sum=" ++ (vsum vs).toHex ++ " secret=" ++ (r.headD 0).toHex) else
+          let model := (sortedSet Q).map fun id => (id, match g.toAdditive Q lam id with | some v => [v] | none => [])
+          mirror (renderIdVals model) (rhs.drop 3).toString
+      else if rhs.startsWith "panic" then .bad "panic" rhs
+      else if qualified then
+        .bad (if hasRowless g Q then "additive-holder-without-rows" else "additive-refused") ("qualified quorum refused: " ++ rhs)
+      else .ok
+    | _, _, _ => .unsupported "args"
+
+def hLin (ps tok rs cs ms hs colA ks rhs : String) : Verdict :=
+  match parsePolicy? tok with
+  | none => .unsupported "policy"
+  | some pol => withField ps (.unsupported "p") fun q =>
+    match parseMSP? (p := q) rs cs ms hs, parseNatList? colA, hexToNat? ks with
+    | some g, some ra, some k =>
+      if !rhs.startsWith "ok:" then .bad "lin-refused" rhs else
+      match (rhs.drop 3).toString.splitOn "/" with
+      | [colB, addS, mulS, recs] =>
+        match parseNatList? colB with
+        | none => .unsupported "rhs"
+        | some rb =>
+          let ra : List (Fp q) := fpList ra
+          let rb : List (Fp q) := fpList rb
+          let k : Fp q := Fp.ofNat q k
+          let wantAdd := renderIdVals (sharesOf g (g.deal (vadd ra rb)))
+          let wantMul := renderIdVals (sharesOf g (g.deal (vsmul k ra)))
+          if wantAdd != addS then .bad "share-add" ("expected=" ++ wantAdd) else
+          if wantMul != mulS then .bad "share-smul" ("expected=" ++ wantMul) else
+          let sumS := (ra.headD 0 + rb.headD 0).toHex
+          let mulSec := (k * ra.headD 0).toHex
+          let wantRecs := (recs.splitOn ";").map fun e =>
+            match e.splitOn ":" with
+            | [ids, _, _] =>
+              match parseNatList? ids with
+              | some S => if pol.isQualified S then ids ++ ":" ++ sumS ++ ":" ++ mulSec else ids ++ ":x:x"
+              | none => "?"
+            | _ => "?"
+          let gotRecs := recs.splitOn ";"
+          match firstDiff wantRecs gotRecs with
+          | some i =>
+            let S := ((parseNatList? (((gotRecs.getD i "").splitOn ":").headD "")).getD [])
+            .bad (if hasRowless g S then "lin-holder-without-rows" else "lin-recon") ("expected=" ++ wantRecs.getD i "?" ++ " observed=" ++ gotRecs.getD i "?")
+          | none => .ok
+      | _ => .unsupported "rhs"
+    | _, _, _ => .unsupported "args"
+
+def hShamir (ps tok secret rhs : String) : Verdict :=
+  match parsePolicy? tok, hexToNat? secret with
+  | some (.threshold t ids), some s => withField ps (.unsupported "p") fun q =>
+    if !rhs.startsWith "ok:" then .bad "shamir-refused" rhs else
+    match (rhs.drop 3).toString.splitOn "/" with
+    | [cf, sh, rec] =>
+      match parseNatList? cf, parseIdVals? sh with
+      | some cf, some shv =>
+        let cf : List (Fp q) := fpList cf
+        let pol := Policy.threshold t ids
+        let U := pol.shareholders
+        if cf.length ≠ t ∨ cf.head? ≠ some (Fp.ofNat q s) then .bad "shamir-poly" "degree/constant term" else
+        let want := renderIdVals (U.map fun id => (id, [shamirShare cf id]))
+        if want != sh then .bad "shamir-shares" ("expected=" ++ want) else
+        let sets := masks U
+        let secretHex := (Fp.ofNat q s).toHex
+        let wantRec := sets.map fun S => if pol.isQualified S then secretHex else "x"
+        match firstDiff wantRec (rec.splitOn ",") with
+        | some i => .bad "shamir-recon" ("subset=" ++ hexList (sets.getD i []) ++ " expected=" ++ wantRec.getD i "?")
+        | none =>
+          -- the model's own Lagrange reconstruction from the reported shares
+          let val (id : Nat) : Fp q := Fp.ofNat q (((shv.find? (·.1 == id)).map (·.2.headD 0)).getD 0)
+          let model := sets.map fun S => if pol.isQualified S then (shamirReconstruct S (S.map val)).toHex else "x"
+          mirror (",".intercalate model) rec
+      | _, _ => .unsupported "rhs"
+    | _ => .unsupported "rhs"
+  | _, _ => .unsupported "args"
+
+def hShamirAdd (ps tok cf qs rhs : String) : Verdict :=
+  match parsePolicy? tok, parseNatList? cf, parseNatList? qs with
+  | some (.threshold t _), some cf, some Q => withField ps (.unsupported "p") fun q =>
+    if !rhs.startsWith "ok:" then .bad "shamir-additive-refused" rhs else
+    let cf : List (Fp q) := fpList cf
+    let Qs := sortedSet Q
+    let nodes : List (Fp q) := Qs.map fun id => Fp.ofNat q id
+    let vals := Qs.zipIdx.map fun (id, i) => (id, [lagrangeAtZero nodes i * shamirShare cf id])
+    if renderIdVals vals != (rhs.drop 3).toString then .bad "shamir-additive" ("expected=" ++ renderIdVals vals) else
+    if t ≤ Qs.length ∧ vsum (vals.map fun (_, v) => v.headD 0) ≠ cf.headD 0 then .diff "model: sum != secret" else .ok
+  | _, _, _ => .unsupported "args"
+
+def hAdditive (ps tok secret rhs : String) : Verdict :=
+  match parsePolicy? tok, hexToNat? secret with
+  | some pol, some s => withField ps (.unsupported "p") fun q =>
+    if !rhs.startsWith "ok:" then .bad "additive-refused" rhs else
+    match (rhs.drop 3).toString.splitOn "/" with
+    | [sh, rec] =>
+      match parseIdVals? sh with
+      | some shv =>
+        let U := pol.shareholders
+        let vs : List (Fp q) := shv.map fun (_, xs) => Fp.ofNat q (xs.headD 0)
+        if shv.map (·.1) != U then .bad "additive-ids" "wrong holders" else
+        if vsum vs ≠ Fp.ofNat q s then .bad "additive-deal-sum" "shares do not sum to the secret" else
+        let sets := masks U
+        let wantRec := sets.map fun S => if pol.isQualified S then (Fp.ofNat q s).toHex else "x"
+        spec "additive-recon" (",".intercalate wantRec) rec
+      | none => .unsupported "rhs"
+    | _ => .unsupported "rhs"
+  | _, _ => .unsupported "args"
+
+/-- `k=v;k=v` with hex keys (bit masks of maximal unqualified sets) -/
+def parsePieces? (s : String) : Option (List (Nat × Nat)) := do
+  let xs ← parseIdVals? s
+  xs.mapM fun (k, vs) => match vs with | [v] => some (k, v) | _ => none
+
+def maskHas (mask id : Nat) : Bool := id ≥ 1 && (mask >>> (id - 1)) % 2 = 1
+
+def hIsn (ps tok secret rhs : String) : Verdict :=
+  match parsePolicy? tok, hexToNat? secret with
+  | some pol, some s => withField ps (.unsupported "p") fun q =>
+    let mus := pol.maximalUnqualified
+    let U := pol.shareholders
+    let musU := sortedSet mus.flatten
+    -- cnf.ConvertToCNF refuses: no unqualified set at all / fewer than two shareholders in them
+    if mus.isEmpty then mirrorNoPanic "err:value" rhs else
+    if musU.length < 2 then mirrorNoPanic "err:membership" rhs else
+    if musU != U then
+      -- some shareholder is qualified on its own and lies in no maximal unqualified set
+      if rhs.startsWith "ok:" then .diff "model: holder outside every maximal unqualified set" else
+      .bad "isn-holder-dropped" ("shareholders " ++ hexList U ++ " but ISN deals only to " ++ hexList musU ++ " observed=" ++ rhs)
+    else
+    if !rhs.startsWith "ok:" then .bad "isn-refused" rhs else
+    match (rhs.drop 3).toString.splitOn "/" with
+    | [pcs, sh, rec] =>
+      match parsePieces? pcs with
+      | none => .unsupported "pieces"
+      | some pieces =>
+        let wantKeys := sortNat (mus.map idMask)
+        if pieces.map (·.1) != wantKeys then .bad "isn-pieces" ("expected keys=" ++ hexList wantKeys) else
+        let total : Fp q := vsum (pieces.map fun (_, v) => Fp.ofNat q v)
+        if total ≠ Fp.ofNat q s then .bad "isn-sum" "pieces do not sum to the secret" else
+        let wantSh := ";".intercalate <| U.map fun id =>
+          natToHex id ++ "=" ++ joinComma ((pieces.filter fun (k, _) => !maskHas k id).map fun (k, v) => natToHex k ++ ":" ++ natToHex v)
+        if wantSh != sh then .bad "isn-shares" ("expected=" ++ wantSh) else
+        let sets := masks U
+        let wantRec := sets.map fun S => if pol.isQualified S then (Fp.ofNat q s).toHex else "x"
+        spec "isn-recon" (",".intercalate wantRec) rec
+    | _ => .unsupported "rhs"
+  | _, _ => .unsupported "args"
+
+def hIsnAdd (ps tok pcs qs rhs : String) : Verdict :=
+  match parsePolicy? tok, parsePieces? pcs, parseNatList? qs with
+  | some pol, some pieces, some Q => withField ps (.unsupported "p") fun q =>
+    let Qs := sortedSet Q
+    let pivot (k : Nat) : Option Nat := Qs.find? fun id => !maskHas k id
+    let vals : List (Nat × List (Fp q)) := Qs.map fun id =>
+      (id, [vsum ((pieces.filter fun (k, _) => !maskHas k id && pivot k == some id).map fun (_, v) => Fp.ofNat q v)])
+    let total : Fp q := vsum (pieces.map fun (_, v) => Fp.ofNat q v)
+    let emptyShare := Qs.any fun id => pieces.all fun (k, _) => maskHas k id
+    if rhs.startsWith "panic" then
+      .bad (if emptyShare then "isn-additive-empty-share-panic" else "panic") ("expected=ok:" ++ renderIdVals vals ++ " observed=" ++ rhs) else
+    if !rhs.startsWith "ok:" then
+      (if pol.isQualified Q then .bad "isn-additive-refused" rhs else mirror ("ok:" ++ renderIdVals vals) rhs) else
+    match parseIdVals? (rhs.drop 3).toString with
+    | none => .unsupported "rhs"
+    | some got =>
+      let gs : List (Fp q) := got.map fun (_, xs) => Fp.ofNat q (xs.headD 0)
+      if pol.isQualified Q ∧ vsum gs ≠ total then .bad "isn-additive-sum" "values do not sum to the secret" else
+      mirror (renderIdVals vals) (rhs.drop 3).toString
+  | _, _, _ => .unsupported "args"
+
+def hTassa (ps tok secret rhs : String) : Verdict :=
+  match parsePolicy? tok, hexToNat? secret with
+  | some (.hier levels), some s => withField ps (.unsupported "p") fun q =>
+    match hierCheck q levels with
+    | .error e => mirrorNoPanic e rhs
+    | .ok _ =>
+      if !rhs.startsWith "ok:" then .bad "tassa-refused" rhs else
+      match (rhs.drop 3).toString.splitOn "/" with
+      | [cf, sh, rec] =>
+        match parseNatList? cf, parseIdVals? sh with
+        | some cf, some shv =>
+          let cf : List (Fp q) := fpList cf
+          let pol := Policy.hier levels
+          let U := pol.shareholders
+          if cf.length ≠ topThreshold levels ∨ cf.head? ≠ some (Fp.ofNat q s) then .bad "tassa-poly" "degree/constant term" else
+          let want := renderIdVals (U.map fun id => (id, [tassaShare levels cf id]))
+          if want != sh then .bad "tassa-shares" ("expected=" ++ want) else
+          let sets := masks U
+          let secretHex := (Fp.ofNat q s).toHex
+          -- top threshold 1 (every first-level party is qualified on its own and simply holds the
+          -- secret): outside the range of the reconstruction clause; only mirrored (two shares needed,
+          -- degree test fails for the secret 0).  Otherwise: exactly the qualified sets, strictly.
+          let wantRec := sets.map fun S => if pol.isQualified S then secretHex else "x"
+          match (if topThreshold levels ≥ 2 then firstDiff wantRec (rec.splitOn ",") else none) with
+          | some i => .bad "tassa-recon" ("subset=" ++ hexList (sets.getD i []) ++ " expected=" ++ wantRec.getD i "?")
+          | none =>
+            let val (id : Nat) : Fp q := Fp.ofNat q (((shv.find? (·.1 == id)).map (·.2.headD 0)).getD 0)
+            let model := sets.map fun S =>
+              if pol.isQualified S then
+                match tassaReconstruct levels S val with | some v => v.toHex | none => "x"
+              else "x"
+            mirror (",".intercalate model) rec
+        | _, _ => .unsupported "rhs"
+      | _ => .unsupported "rhs"
+  | _, _ => .unsupported "args"
+
+def hTassaAdd (ps tok cf qs rhs : String) : Verdict :=
+  match parsePolicy? tok, parseNatList? cf, parseNatList? qs with
+  | some (.hier levels), some cf, some Q => withField ps (.unsupported "p") fun q =>
+    let cf : List (Fp q) := fpList cf
+    let pol := Policy.hier levels
+    let qualified := pol.isQualified Q
+    if rhs.startsWith "panic" then .bad "panic" rhs else
+    if !rhs.startsWith "ok:" then (if qualified then .bad "tassa-additive-refused" rhs else .ok) else
+    if !qualified then .bad "tassa-additive-unqualified" "conversion over an unqualified quorum succeeded" else
+    match parseIdVals? (rhs.drop 3).toString with
+    | none => .unsupported "rhs"
+    | some got =>
+      let gs : List (Fp q) := got.map fun (_, xs) => Fp.ofNat q (xs.headD 0)
+      if vsum gs ≠ cf.headD 0 then .bad "tassa-additive-sum" "values do not sum to the secret" else
+      match tassaAdditive levels Q (tassaShare levels cf) with
+      | none => .diff "model: singular"
+      | some vals => mirror (renderIdVals (vals.map fun (id, v) => (id, [v]))) (rhs.drop 3).toString
+  | _, _, _ => .unsupported "args"
+
+/-- IDs above 64: the library must build the programme/scheme or refuse with an error, never panic -/
+def hBig (key rhs : String) : Verdict :=
+  if rhs.startsWith "panic" then .bad key ("accepted by the constructor, then " ++ rhs)
+  else if rhs.startsWith "ok" || rhs.startsWith "err:" || rhs.startsWith "new-err:" || rhs.startsWith "deal-err:" then .ok
+  else .unsupported "rhs"
+
+def handle (op : String) (args : List String) (rhs : String) : Verdict :=
+  match op, args with
+  | "new", [tok] => hNew tok rhs
+  | "qual", [tok] => hQual tok rhs
+  | "msp", [ps, tok] => hMsp ps tok rhs
+  | "mspref", [ps, tok] => hMsp ps tok rhs
+  | "accepts", [ps, tok, rs, cs, ms, hs] => hAccepts ps tok rs cs ms hs rhs
+  | "recvec", [ps, rs, cs, ms, hs, ss] => hRecvec ps rs cs ms hs ss rhs
+  | "deal", [ps, rs, cs, ms, hs, s] => hDeal ps rs cs ms hs s rhs
+  | "recon", [ps, tok, rs, cs, ms, hs, col] => hRecon ps tok rs cs ms hs col rhs
+  | "toadd", [ps, tok, rs, cs, ms, hs, col, qs] => hToAdd ps tok rs cs ms hs col qs rhs
+  | "lin", [ps, tok, rs, cs, ms, hs, col, k] => hLin ps tok rs cs ms hs col k rhs
+  | "qualx", [tok, ids] =>
+    match parsePolicy? tok, parseNatList? ids with
+    | some pol, some S => mirrorNoPanic (toString (pol.isQualified S)) rhs
+    | _, _ => .unsupported "args"
+  | "acceptsx", [ps, rs, cs, ms, hs, ids] => withField ps (.unsupported "p") fun q =>
+    match parseMSP? (p := q) rs cs ms hs, parseNatList? ids with
+    | some g, some S => mirrorNoPanic (toString (g.accepts (dedup S))) rhs
+    | _, _ => .unsupported "args"
+  | "shamir", [ps, tok, s] => hShamir ps tok s rhs
+  | "shamiradd", [ps, tok, cf, qs] => hShamirAdd ps tok cf qs rhs
+  | "additive", [ps, tok, s] => hAdditive ps tok s rhs
+  | "isn", [ps, tok, s] => hIsn ps tok s rhs
+  | "isnadd", [ps, tok, pcs, qs] => hIsnAdd ps tok pcs qs rhs
+  | "tassa", [ps, tok, s] => hTassa ps tok s rhs
+  | "tassaadd", [ps, tok, cf, qs] => hTassaAdd ps tok cf qs rhs
+  | "mspbig", [_, _] => hBig "cnf-id-gt64-panic" rhs
+  | "isnbig", [_, _] => hBig "isn-id-gt64-panic" rhs
+  | _, _ => .unsupported ("C02 op " ++ op)
 
 end BronVerif.Drive.C02
